@@ -313,10 +313,10 @@ fn judge_text(c: &Case, text: &str) -> Option<(String, String)> {
         if m.public != f.public || !m.is_unsafe {
             return Some(("wrapper_qualifiers_differ".into(), format!("T::{}: pub={} unsafe={}", f.name, m.public, m.is_unsafe)));
         }
-        // the literal the wrapper transmutes is the declared address
-        let lit = format!("transmute(0x{:X}asusize", f.addr);
-        if !m.body.replace(' ', "").contains(&lit) {
-            return Some(("wrapper_address_literal_differs".into(), format!("T::{}: expected `{lit}` in body `{}`", f.name, m.body)));
+        // the only number in the wrapper is the declared address (however it is spelled)
+        let lits = synx::int_literals(&m.body);
+        if lits != vec![f.addr as u128] {
+            return Some(("wrapper_address_literal_differs".into(), format!("T::{}: declared address {:#x}, integer literals in the body: {lits:x?}\n{}", f.name, f.addr, m.body)));
         }
     }
     None
